@@ -1,6 +1,7 @@
 import OxiVerif.Base.Driver
 import OxiVerif.Model.C14
 import OxiVerif.Model.C14Spec
+import OxiVerif.Model.C14Graph
 /-!
 Driver for C14.  Request / answer syntax: see `harness/src/bin/c14.rs`.
   `<seq|graph> <max> <merge> <propagate> <S|A> <ctx> <counter> <elements>`
@@ -9,7 +10,11 @@ ORACLE = the property's spec side evaluated on the implementation's answer:
   every chunk non-empty; `text()` is the "\n"-join of the elements' display texts;
   `token_estimate = count(text)`; `¬oversized → count(text) ≤ max` (skipped for a counter that
   lies about its additivity); the chunk elements cover the input exactly once, in order
-  (`coversB`); the heading rule; determinism (the harness answers `nondeterministic` otherwise).
+  (`coversB`); the heading rule (graph mode: the heading of the title governing the chunk's first
+  element — the most recent earlier title it names, else the nearest preceding title);
+  determinism (the harness answers `nondeterministic` otherwise).
+Graph mode reasons `graph-order` (accepted as known finding C14-F2 only for input WITH a stale
+heading), `graph-drop` / `graph-sum` (repaired C14-F1 / C14-F3: no open finding matches them).
 Failure reasons are listed in a fixed order, `;`-separated.
 -/
 open OxiVerif OxiVerif.C14
@@ -142,6 +147,13 @@ def governingTitle (pre : List Elem) (ph : Option Str) : Option Elem :=
   | none => none
   | some h => (pre.reverse.find? fun t => t.isTitle && decide (t.text = h))
 
+/-- spec: the section an element after the first title belongs to = its governing title, else (it
+    names nothing / no earlier title) the nearest preceding title -/
+def sectionTitle (pre : List Elem) (ph : Option Str) : Option Elem :=
+  match governingTitle pre ph with
+  | some t => some t
+  | none => pre.reverse.find? Elem.isTitle
+
 /-- input elements (with their prefix) that belong to no section although they come after the first title -/
 def unsectioned : List Elem → List Elem → List Elem
   | _, [] => []
@@ -164,7 +176,7 @@ def expectedHeading (graph : Bool) (cfg : Config) (inp : List Elem) (c : Chunk) 
       | some (pre, e) =>
         if !(pre.any Elem.isTitle) && !e.isTitle then some (elemHeading cfg f)
         else if e.isTitle then some (titleHeading e)
-        else (governingTitle pre e.md.parentHeading).map titleHeading
+        else (sectionTitle pre e.md.parentHeading).map titleHeading
 
 def oracle (graph : Bool) (cfg : Config) (cnt : Counter) (truthful additiveNl : Bool)
     (inp : List Elem) (ics : List IChunk) : String :=
@@ -182,7 +194,7 @@ def oracle (graph : Bool) (cfg : Config) (cnt : Counter) (truthful additiveNl : 
                  else if missing.all (fun e => uns.contains e) then ["graph-drop"] else ["partition-missing"]
        let rest := inp.filter fun e => outIds.contains e.md.id
        let r2 := if coversB out rest then []
-                 else if coversB (sortById out) (sortById rest) && !(wellSec none inp) then ["graph-order"]
+                 else if coversB (sortById out) (sortById rest) && !(noStale [] inp) then ["graph-order"]
                  else ["partition-order-or-content"]
        let r12 := r1 ++ r2
        if r12.isEmpty then ["partition"] else r12)
@@ -211,8 +223,12 @@ def handle (req impl : String) : String × String :=
       let graph := mode == "graph"
       let cfg : Config := { maxTokens := max, mergeAdjacent := merge == "1",
                             propagateHeadings := prop == "1", sameTypeOnly := policy == "S" }
-      let cs := if graph then chunkWithGraph cfg cnt inp else chunk cfg cnt inp
+      -- graph mode: the LITERAL index-based transcription (both title maps, parent/children
+      -- vectors, unattached pass, sort) answers; the fused pass the theorems are about must agree
+      let cs := if graph then chunkWithGraphLit cfg cnt inp else chunk cfg cnt inp
       let m := showChunks cs
+      let m := if graph && m != showChunks (chunkWithGraph cfg cnt inp)
+               then "model-internal:fused-pass-differs-from-literal-graph:" ++ m else m
       let o :=
         if impl = "nondeterministic" then "fail:nondeterministic"
         else match parseIChunks impl with
